@@ -53,6 +53,7 @@ func cmdMulti(args []string) int {
 	seed := fs.Int64("seed", 1, "seed")
 	out := fs.String("out", "trace.ndjson", "trace")
 	thorough := fs.Bool("thorough", false, "thorough")
+	scale := fs.Int("scale", 100, "size of the data in percent (the race build is slow)")
 	fs.Parse(args)
 	w, err := tr.Open(*out)
 	if err != nil {
@@ -61,8 +62,36 @@ func cmdMulti(args []string) int {
 	rnd := rand.New(rand.NewSource(*seed*313 + 5))
 	total := 0
 	for r := 0; r < *rounds; r++ {
-		pipes := make([]pipe, *n)
-		for i := range pipes {
+		var pipes []pipe
+		// every transform and every entropy codec twice, on data that activates it, several blocks, several jobs:
+		// each codec runs concurrently with itself (other instance and other task) and with all the others
+		shapeFor := map[string][]string{"TEXT": {"text"}, "UTF": {"utf8", "utf8wide"}, "DNA": {"dnarep", "dna"}, "PACK": {"hex", "smallalpha"}, "EXE": {"x86"},
+			"MM": {"bmptile", "wav"}, "ROLZ": {"html", "dnarep"}, "ROLZX": {"html", "text"}, "LZ": {"html"}, "LZX": {"html"}, "LZP": {"dnarep"}, "RLT": {"runs"},
+			"ZRLT": {"sparse"}, "BWT": {"text"}, "BWTS": {"text"}, "SRT": {"text"}, "RANK": {"runs"}, "MTFT": {"runs"}, "NONE": {"mixed"}}
+		addPipe := func(tf, en, shape string, size int, k int) {
+			B := uint(4096)
+			size = size * *scale / 100
+			pipes = append(pipes, pipe{w: kz.Cfg{Transform: tf, Entropy: en, Block: B, Jobs: pick(rnd, []uint{2, 3, 4}), Ck: pick(rnd, []uint{0, 32, 64}), Hint: -1},
+				rjobs: pick(rnd, []uint{2, 4, 8}), shape: shape, size: size, seed: *seed*7717 + int64(r*1000+k), parts: nil, lens: pick(rnd, [][]int{nil, {1024}, {65536}, {4096}})})
+		}
+		k := 0
+		for _, tf := range transformNames {
+			for c := 0; c < 2; c++ {
+				addPipe(tf, pick(rnd, []string{"NONE", "HUFFMAN", "ANS0"}), pick(rnd, shapeFor[tf]), 30000, k)
+				k++
+			}
+		}
+		for _, en := range entropyNames {
+			sz := 30000
+			if slowEntropy(en) {
+				sz = 9000
+			}
+			for c := 0; c < 2; c++ {
+				addPipe(pick(rnd, []string{"NONE", "TEXT", "LZ"}), en, "text", sz, k)
+				k++
+			}
+		}
+		for i := 0; i < *n; i++ {
 			run, _ := planWriterRun("c18", r*1000+i, *seed, *thorough)
 			size := run.Size
 			if size > 60000 {
@@ -71,20 +100,20 @@ func cmdMulti(args []string) int {
 			if slowEntropy(run.W.Entropy) && size > 6000 {
 				size = 6000
 			}
-			// all codecs in every round: shared static tables and dictionaries in use at the same time
 			if i < len(levelPresets) {
-				t, e := levelPresets[i][:len(levelPresets[i])-len(levelPresets[i][lastAmp(levelPresets[i]):])], levelPresets[i][lastAmp(levelPresets[i])+1:]
-				run.W.Transform, run.W.Entropy = t, e
+				a := lastAmp(levelPresets[i])
+				run.W.Transform, run.W.Entropy = levelPresets[i][:a], levelPresets[i][a+1:]
 				run.Shape = pick(rnd, []string{"text", "mixed", "utf8", "x86", "dnarep"})
-				if slowEntropy(e) {
+				if slowEntropy(run.W.Entropy) {
 					size = 6000
 				} else {
 					size = 40000
 				}
 			}
+			size = size * *scale / 100
 			run.W.Headerless = false
 			run.W.Jobs = pick(rnd, []uint{1, 2, 3, 4, 8, 16})
-			pipes[i] = pipe{w: run.W, rjobs: pick(rnd, []uint{1, 2, 4, 8, 16}), shape: run.Shape, size: size, seed: run.Seed, parts: run.Parts, lens: pick(rnd, [][]int{nil, {1024}, {7, 1, 300}, {65536}, {3, 70000}, {4096}})}
+			pipes = append(pipes, pipe{w: run.W, rjobs: pick(rnd, []uint{1, 2, 4, 8, 16}), shape: run.Shape, size: size, seed: run.Seed, parts: run.Parts, lens: pick(rnd, [][]int{nil, {1024}, {7, 1, 300}, {65536}, {3, 70000}, {4096}})})
 		}
 		// alone, one after the other
 		iso := make([][3]string, len(pipes))
